@@ -19,7 +19,7 @@ RULE = (
     " through encode_list + decode_bytes + decode_bytearray with bytes and bytearray values; (B) decoder totality:"
     " every byte string of length<=2, every string of length 3-6 over {0,1,2,3,6,7,254,255}, random strings and"
     " truncation/bit-flip/length-edit mutants of valid encodings; (C) 'expected' filter over random lists x type"
-    " subsets; (D) BLE pairing fragment reassembly with 1..50 pieces through the real _pairing_char_write."
+    " subsets; (D) BLE pairing fragment reassembly with 1..50 pieces (also with an EMPTY closing FragmentLast) through the real _pairing_char_write."
     " A case is distinct by (part, input bytes / item list, mode); non-trivial = the input is non-empty."
 )
 ASSUMPTIONS = [
@@ -30,7 +30,7 @@ ASSUMPTIONS = [
 SHARDS = {"quick": 8, "thorough": 16}
 TIMEOUT = {"quick": 600, "thorough": 3600}
 MIN_CASES = {"quick": 50_000, "thorough": 500_000}
-REQUIRED_COUNTERS = ["roundtrip_checked", "totality_checked", "filter_checked", "ble_reassembly_checked", "parse_errors_seen"]
+REQUIRED_COUNTERS = ["roundtrip_checked", "totality_checked", "filter_checked", "ble_reassembly_checked", "ble_reassembly_empty_last_fragment", "parse_errors_seen"]
 
 BOUNDARY = [0, 1, 2, 254, 255, 256, 257, 509, 510, 511, 765, 766]
 ALPHABET = [0, 1, 2, 3, 6, 7, 254, 255]
@@ -311,7 +311,7 @@ def gen_filter(ctx):
 # ---------------------------------------------------------------------------------------------
 
 
-def run_ble_reassembly(ctx, response_items, pieces: int, negotiated: int, request_items) -> None:
+def run_ble_reassembly(ctx, response_items, pieces: int, negotiated: int, request_items, empty_last: bool = False) -> None:
     from aiohomekit.controller.ble import client as ble_client
     from vf.sim_ble import FakeGattClient, FakeHandle, GattEndpointSim
 
@@ -322,8 +322,14 @@ def run_ble_reassembly(ctx, response_items, pieces: int, negotiated: int, reques
     n = max(1, min(pieces, len(payload)))
     size = len(payload) // n
     chunks = [payload[i * size : (i + 1) * size] for i in range(n - 1)] + [payload[(n - 1) * size :]]
+    if empty_last and n < 50:  # 50 = the library's documented MAX_REASSEMBLY
+        # the payload is an exact multiple of the accessory's fragment size: every byte travels in FragmentData items and
+        # the closing FragmentLast item is EMPTY (0d 00)
+        chunks.append(b"")
+        n += 1
+        ctx.count("ble_reassembly_empty_last_fragment")
     state = {"i": 0, "acks": []}
-    replay = {"part": "D", "items": plain, "pieces": pieces, "negotiated": negotiated, "request": [(t, bytes(v)) for t, v in request_items]}
+    replay = {"part": "D", "items": plain, "pieces": pieces, "negotiated": negotiated, "request": [(t, bytes(v)) for t, v in request_items], "empty_last": empty_last}
 
     def responder(opcode, tid, iid, body):
         outer = dict(ref.decode(body or b""))
@@ -342,7 +348,7 @@ def run_ble_reassembly(ctx, response_items, pieces: int, negotiated: int, reques
     handle = FakeHandle("0000004C-0000-1000-8000-0026BB765291", 10)
     client = FakeGattClient(negotiated)
     client.endpoints[handle] = GattEndpointSim(responder)
-    ctx.case("D", payload, pieces, negotiated, sample={"part": "ble-reassembly", "response_types": [(t, len(v)) for t, v in plain], "pieces": n, "fragment_size": negotiated}, kind="D")
+    ctx.case("D", payload, pieces, negotiated, empty_last, sample={"part": "ble-reassembly", "response_types": [(t, len(v)) for t, v in plain], "pieces": n, "fragment_size": negotiated, "empty_last_fragment": empty_last}, kind="D")
     ctx.count("ble_reassembly_checked")
     try:
         got = asyncio.run(ble_client._pairing_char_write(client, handle, 11, [(t, bytes(v)) for t, v in request_items]))
@@ -376,7 +382,8 @@ def gen_ble(ctx):
         for pieces in range(1, 51):
             idx += 1
             if ctx.mine(idx):
-                yield resp, pieces, (23 if idx % 3 else 200), request
+                yield resp, pieces, (23 if idx % 3 else 200), request, False
+                yield resp, pieces, (23 if idx % 3 else 200), request, True
     ctx.exhaustive_parts["D.pieces_1..50_x_3_messages"] = True
     for k in range(ctx.pick(60, 1500) // ctx.nshards):
         items = []
@@ -385,7 +392,7 @@ def gen_ble(ctx):
             t = rng.choice([x for x in (0, 1, 2, 3, 4, 5, 6, 7, 9, 10, 14) if x not in used])
             used.add(t)
             items.append((t, rng.randbytes(rng.choice([1, 16, 32, 64, 255, 256, 384, 700]))))
-        yield items, rng.randint(1, 50), rng.choice([23, 64, 155, 244, 512]), request
+        yield items, rng.randint(1, 50), rng.choice([23, 64, 155, 244, 512]), request, rng.random() < 0.3
 
 
 # ---------------------------------------------------------------------------------------------
@@ -398,8 +405,8 @@ def run(ctx) -> None:
         check_totality(ctx, data, fn, origin)
     for items, expected, origin in gen_filter(ctx):
         check_filter(ctx, items, expected, origin)
-    for resp, pieces, negotiated, request in gen_ble(ctx):
-        run_ble_reassembly(ctx, resp, pieces, negotiated, request)
+    for resp, pieces, negotiated, request, empty_last in gen_ble(ctx):
+        run_ble_reassembly(ctx, resp, pieces, negotiated, request, empty_last)
 
 
 def replay(ctx, d) -> None:
@@ -411,4 +418,4 @@ def replay(ctx, d) -> None:
     elif part == "C":
         check_filter(ctx, [tuple(x) for x in d["items"]], d["expected"], "replay")
     elif part == "D":
-        run_ble_reassembly(ctx, [tuple(x) for x in d["items"]], d["pieces"], d["negotiated"], [tuple(x) for x in d["request"]])
+        run_ble_reassembly(ctx, [tuple(x) for x in d["items"]], d["pieces"], d["negotiated"], [tuple(x) for x in d["request"]], d.get("empty_last", False))
